@@ -15,7 +15,7 @@ type c02Scn struct {
 }
 
 func genC02(rt *rapid.T) c02Scn {
-	o := vfGenOpts{smallMTU: false, bigRTOMax: true, trailingShutdown: true}
+	o := vfGenOpts{smallMTU: false, bigRTOMax: true, trailingShutdown: true, prStreams: true}
 	sc := genTransfer(rt, o, 20, 1200, rapid.SampledFrom([]int{10, 30, 50}).Draw(rt, "intensity"))
 	// heavier disturbances
 	last := vfLastActMs(&sc)
